@@ -278,6 +278,12 @@ func (e *Engine) VerifyFunc(c *Contract) {
 		}
 		c = &cp
 	}
+	e.curDirect = false
+	for _, p := range c.Props {
+		if p == e.prop {
+			e.curDirect = true
+		}
+	}
 	e.noInv = c.NoInv
 	defer func() { e.noInv = nil }()
 	fc := &FnCtx{e: e, pkg: pkg, info: pkg.TypesInfo, decl: tgt.decl, body: tgt.body, c: c, name: name,
@@ -351,6 +357,23 @@ func (e *Engine) VerifyFunc(c *Contract) {
 		}
 	}
 	// requires
+	// a lock that the preconditions speak about may be held on entry: its state starts out unknown (otherwise: not held)
+	for _, rq := range c.Requires {
+		if !e.applies(rq) {
+			continue
+		}
+		ast.Inspect(rq.Expr, func(n ast.Node) bool {
+			if call, ok := n.(*ast.CallExpr); ok {
+				if id, ok := call.Fun.(*ast.Ident); ok && id.Name == "held" && len(call.Args) == 1 {
+					key := "lock:" + exprString(call.Args[0])
+					if _, have := st.ghost[key]; !have {
+						st.ghost[key] = Var("held0:"+exprString(call.Args[0]), SBool)
+					}
+				}
+			}
+			return true
+		})
+	}
 	for _, r := range c.Requires {
 		sc := fc.specCtx(st, nil)
 		sc.pol = -1
